@@ -15,3 +15,6 @@ func buildQueryParams(mw restlicodec.MapWriter) (string, error) {
 }
 
 func newQueryWriter() restlicodec.Writer { return restlicodec.NewRestLiQueryParamsWriter() }
+
+// resources deliberately absent from this generation's bindings
+var c11ResourceLeftOut = map[string]bool{}
